@@ -125,7 +125,7 @@ dev_impl! {
         if pool.is_empty() {
             return out;
         }
-        let fu = SpecFunctor { spec: &c.spec };
+        let fu = SpecFunctor { spec: &c.spec, native: c.ops.len() % 2 == 1 };
         for (step, op) in c.ops.iter().enumerate() {
             let n = pool.len();
             let pick = |i: &usize| &pool[*i % n];
